@@ -553,3 +553,12 @@ func Test46PromotedThroughPointerVsDeeperValue(t *testing.T) {
 	wantOut(t, one(`{{ .X }}|{{ .["X"] }}`, nil, s), "shallow-through-pointer|shallow-through-pointer")
 	wantOut(t, one(`{{ .X }}`, nil, &s), "shallow-through-pointer")
 }
+
+func Test47UnpositionedReflectErrors(t *testing.T) {
+	v := jet.VarMap{}
+	v.Set("m", map[string]int{"a": 1}).Set("xs", []string{"x"})
+	for _, src := range []string{"\n{{ m[nil] }}", "\n{{ xs[nil] }}", "\n{{ 1 + m.nokey(1) }}", "\n{{ m.nokey(1) }}", "\n{{ v, ok := m[nil] }}", "\n{{ isset(m[nil]) }}ok"} {
+		r := one(src, v, nil)
+		t.Logf("%q -> %s", src, r)
+	}
+}
